@@ -16,4 +16,12 @@ PROPS = {
         ],
         "partial": "theorems are over the reals with checked division (zero denominators are `none`); f32 rounding, overflow and the accuracy of logf/expf are NOT modelled and are covered only by the tolerance (4 ulp / 1e-6 relative) of the correspondence check; symmetry / finite / >= 0 / special cases are additionally checked bit-exactly on the implementation by the harness; the distance itself (distance_to_term) is an input of the Distance theorems (its symmetry is C11's subject)",
     },
+    "C05": {
+        "rule": "per case one ontology (14..20 terms, random ids) and: 13 hand-built matrices Matrix::new(r, c, data) with r = case index mod 13 and every c in 0..12 (all shapes incl. empty and non-square, dyadic entries k/64 with ties/constant/random fillings) through SimilarityCombiner::calculate, rows(), cols(), row_maxes, col_maxes; 12 set pairs of sizes 0..12 x 0..12 (empty, equal, unequal, identical sets, duplicate ids) through HpoSet::similarity with a USER-SUPPLIED similarity injected via the public Similarity trait (asymmetric table ((31a+17b+salt) mod 64)/64 or a symmetric one), all three combiners; 2 sequences of 2..7 queries (repeated, swapped, overlapping) through one CachedSimilarity; distinct = distinct op lists; every case non-trivial (contains non-square asymmetric matrices)",
+        "assumptions": [
+            "slice indexing / Iterator::step_by / Iterator::reduce / f32::max contracts of the Rust standard library",
+            "a term similarity is a function of the two term ids (the injected one is)",
+        ],
+        "partial": "theorems are over the reals with checked division; f32 rounding of sums and quotients is not modelled: the generated similarities are dyadic (k/64) so the f32 evaluation is exact up to the final correctly rounded divisions, compared within the f32 tolerance of the differ and against a naive f64 recomputation in the harness (1e-6); matrices whose dimensions do not match the data length are outside the property (Matrix::new documents that callers must ensure it)",
+    },
 }
